@@ -1,6 +1,10 @@
 package main
 
 import (
+	"fmt"
+	"time"
+
+	"verif/harness/eng"
 	"verif/harness/hist"
 	rc "verif/harness/refcodec"
 	"verif/harness/vk"
@@ -122,6 +126,62 @@ func checkC38(c *vk.Ctx) {
 	h := &histRun{Prop: "C38", Profile: p, N: c.N(300, 8000), Label: 38, Nontrivial: []string{"stats_points"}, Opt: &hist.SimOptions{CheckStats: true}}
 	h.run(c)
 	c.MinEvents["stats_points"] = 3000
+	c38FailedConnects(c)
+}
+
+// c38FailedConnects: connections that are counted but never get their CONNACK (the write fails, the CONNACK exceeds the
+// client's Maximum Packet Size, the peer is gone) must leave the connected-clients counter as they found it. The
+// history engine's connects always succeed or are refused before they are counted, so this is driven directly.
+func c38FailedConnects(c *vk.Ctx) {
+	for _, ver := range []byte{4, 5} {
+		for _, order := range [][]string{{"write-fails", "too-large", "peer-gone"}, {"peer-gone", "write-fails", "too-large", "write-fails"}, {"too-large", "too-large"}} {
+			b := eng.NewBroker(eng.Options{})
+			a, rx := dConnect(b, ver, "stay", true, nil, nil)
+			if ca := hasType(rx, rc.CONNACK); ca == nil || ca.Reason != 0 {
+				c.Inconclusive("C38 failed-connect probe: reference client refused")
+				b.Shutdown()
+				continue
+			}
+			open := int64(1)
+			check := func(after string) {
+				b.Quiesce(10 * time.Second)
+				got := b.S.Info.Clone().ClientsConnected
+				c.Count("failed_connect_points", 1)
+				if got != open {
+					c.Violate("C38/counter-mismatch", map[string]string{"counter": "clients_connected", "after_op": "failed-connect:" + after, "negative": fmt.Sprint(got < 0), "drift": fmt.Sprint(got > open)},
+						fmt.Sprintf("MQTT %d: after a CONNECT that ended without CONNACK (%s) the connected-clients counter reports %d, %d connection(s) are open (sequence %v)", ver, after, got, open, order),
+						map[string]any{"version": ver, "sequence": order})
+				}
+			}
+			for i, kind := range order {
+				cl := b.Attach()
+				cl.Version = ver
+				p := &rc.Packet{Type: rc.CONNECT, Version: ver, ProtoLevel: ver, ProtoName: "MQTT", ClientID: fmt.Sprintf("fc%d", i), ConnectFlags: 2}
+				switch kind {
+				case "write-fails":
+					cl.MC.FailWriteAt(1)
+				case "too-large":
+					if ver == 5 {
+						p.Props = rc.Props{{ID: rc.PMaxPacketSize, Num: 2}}
+					} else {
+						cl.MC.FailWriteAt(1)
+					}
+				}
+				cl.Send(p, rc.FormAuto)
+				if kind == "peer-gone" {
+					cl.MC.CloseByClient()
+				}
+				check(kind)
+				cl.MC.CloseByClient()
+				check(kind + ", connection closed")
+			}
+			a.send(&rc.Packet{Type: rc.DISCONNECT})
+			open = 0
+			check("reference client disconnected")
+			c.Eval(vk.Hash("c38fc", ver, order), true)
+			b.Shutdown()
+		}
+	}
 }
 
 func checkC40(c *vk.Ctx) {
